@@ -119,3 +119,12 @@ Theorem c20_watcher_remove_branch_pinned :
   Wiring.wait_for_replacement_rearms = true.
 Proof. repeat split; vm_compute; reflexivity. Qed.
 Print Assumptions c20_watcher_remove_branch_pinned.
+
+(* the event loop REGENERATED from WatchFileForUpdates on this run: only the done channel ends it; an event is handed to
+   filterEvent; an error the watcher reports (a dropped event, a failed read) is logged and the loop goes on - the
+   model's Step is always available to a loop that has not been told to stop *)
+Theorem c20_watcher_loop_pinned :
+  Wiring.watcher_loop_cases =
+    [s "<-done => log; return"; s "event := <-watcher.Events => filterEvent(watcher, event, filename, action)"; s "err = <-watcher.Errors => log"].
+Proof. vm_compute. reflexivity. Qed.
+Print Assumptions c20_watcher_loop_pinned.
